@@ -557,7 +557,7 @@ impl<'a> Interp<'a> {
         self.handle_run(r, p.kind, p.op);
     }
 
-    fn complete(&mut self, kind: PKind, _op: u32, res: vcore::sched::OpResult) {
+    fn complete(&mut self, kind: PKind, op: u32, res: vcore::sched::OpResult) {
         match (kind, res) {
             (PKind::Poll(g), Ok(b)) => match *b.downcast::<OpOut>().expect("opout") {
                 OpOut::Poll(Some(fut), None) => {
@@ -589,7 +589,7 @@ impl<'a> Interp<'a> {
                 self.op_panicked("take", pk)
             }
             (PKind::Retain, Ok(b)) => match *b.downcast::<OpOut>().expect("opout") {
-                OpOut::Retain(rr) => self.retain_done(rr, None),
+                OpOut::Retain(rr) => self.retain_done(op, rr, None),
                 _ => unreachable!(),
             },
             (PKind::Retain, Err(pk)) => self.op_panicked("retain", pk),
@@ -921,7 +921,7 @@ impl<'a> Interp<'a> {
             None => {
                 let r = self.sched.run_inline(op, move || pool.retain(predicate));
                 match r {
-                    Ok(rr) => self.retain_done(rr, before),
+                    Ok(rr) => self.retain_done(op, rr, before),
                     Err(pk) => self.op_panicked("retain", pk),
                 }
             }
@@ -946,6 +946,7 @@ impl<'a> Interp<'a> {
 
     fn retain_done(
         &mut self,
+        op: u32,
         rr: RetainResult<Obj>,
         before: Option<(Option<ManagedSnapshot>, Vec<u32>)>,
     ) {
@@ -954,14 +955,13 @@ impl<'a> Interp<'a> {
         let preds: Vec<(u32, bool)> = {
             let w = self.world.w();
             let mut v = vec![];
-            for e in w.log.iter().rev() {
-                match e {
-                    Ev::Pred { id, keep, .. } => v.push((*id, *keep)),
-                    Ev::Detach { .. } | Ev::Point { .. } | Ev::Parked { .. } | Ev::Note(_) => {}
-                    _ => break,
+            for e in w.log.iter() {
+                if let Ev::Pred { op: o, id, keep } = e {
+                    if *o == op {
+                        v.push((*id, *keep));
+                    }
                 }
             }
-            v.reverse();
             v
         };
         let expect_removed: Vec<u32> = preds.iter().filter(|p| !p.1).map(|p| p.0).collect();
@@ -1763,8 +1763,8 @@ impl<'a> Interp<'a> {
             for h in held {
                 keep.push(h);
             }
-            drop(pool);
             world.w().pool_dead = true;
+            drop(pool);
             for h in keep {
                 let id = h.obj.id;
                 assert_eq!(id, h.id);
